@@ -115,47 +115,65 @@ func c06Reparent(e *Env) {
 			r.Check(moved[f], rule, key+":moved", pos, "field "+f.Name()+" of the split node is handed to the new node", "newNode does not receive "+base.Name()+"."+f.Name()+": that subtree is lost by the split")
 			reparented, cleared := false, false
 			_, isSlice := f.Type().Underlying().(*types.Slice)
+			// only unconditional statements of the split block count, or statements guarded by
+			// nothing but a nil test of the same field (`if cur.F != nil { cur.F.parent = n }`);
+			// an else-branch or any other condition makes the step conditional on something else
+			isNilGuardOf := func(is *ast.IfStmt) bool {
+				be, ok := unparen(is.Cond).(*ast.BinaryExpr)
+				if !ok || be.Op != token.NEQ || is.Init != nil {
+					return false
+				}
+				id, ok := unparen(be.Y).(*ast.Ident)
+				return ok && id.Name == "nil" && usedVar(info, be.X) == f
+			}
+			var flat []ast.Stmt
 			for _, s := range after {
-				ast.Inspect(s, func(m ast.Node) bool {
-					switch x := m.(type) {
-					case *ast.RangeStmt:
-						if isSlice && usedVar(info, x.X) == f {
-							if vid, ok := x.Value.(*ast.Ident); ok {
-								ev := info.ObjectOf(vid)
-								ast.Inspect(x.Body, func(k ast.Node) bool {
-									if a2, ok := k.(*ast.AssignStmt); ok && len(a2.Lhs) == 1 && len(a2.Rhs) == 1 {
-										if se, ok := unparen(a2.Lhs[0]).(*ast.SelectorExpr); ok && usedVar(info, se) == parent {
-											if id, ok := unparen(se.X).(*ast.Ident); ok && info.ObjectOf(id) == ev && usedVar(info, a2.Rhs[0]) == nVar {
-												reparented = true
-											}
+				switch x := s.(type) {
+				case *ast.IfStmt:
+					if isNilGuardOf(x) {
+						flat = append(flat, x.Body.List...) // the else part (if any) is ignored
+					}
+				default:
+					flat = append(flat, s)
+				}
+			}
+			for _, s := range flat {
+				switch x := s.(type) {
+				case *ast.RangeStmt:
+					if isSlice && usedVar(info, x.X) == f {
+						if vid, ok := x.Value.(*ast.Ident); ok {
+							ev := info.ObjectOf(vid)
+							for _, bs := range x.Body.List {
+								if a2, ok := bs.(*ast.AssignStmt); ok && len(a2.Lhs) == 1 && len(a2.Rhs) == 1 {
+									if se, ok := unparen(a2.Lhs[0]).(*ast.SelectorExpr); ok && usedVar(info, se) == parent {
+										if id, ok := unparen(se.X).(*ast.Ident); ok && info.ObjectOf(id) == ev && usedVar(info, a2.Rhs[0]) == nVar {
+											reparented = true
 										}
-									}
-									return true
-								})
-							}
-						}
-					case *ast.AssignStmt:
-						if len(x.Lhs) == 1 && len(x.Rhs) == 1 {
-							if se, ok := unparen(x.Lhs[0]).(*ast.SelectorExpr); ok {
-								// cur.F.parent = n
-								if !isSlice && usedVar(info, se) == parent && usedVar(info, x.Rhs[0]) == nVar {
-									if inner, ok := unparen(se.X).(*ast.SelectorExpr); ok && usedVar(info, inner) == f {
-										reparented = true
-									}
-								}
-								// cur.F = nil
-								if usedVar(info, se) == f && usedVar(info, se.X) == base {
-									if id, ok := unparen(x.Rhs[0]).(*ast.Ident); ok && id.Name == "nil" {
-										cleared = true
 									}
 								}
 							}
 						}
 					}
-					return true
-				})
+				case *ast.AssignStmt:
+					if len(x.Lhs) == 1 && len(x.Rhs) == 1 {
+						if se, ok := unparen(x.Lhs[0]).(*ast.SelectorExpr); ok {
+							// cur.F.parent = n
+							if !isSlice && usedVar(info, se) == parent && usedVar(info, x.Rhs[0]) == nVar {
+								if inner, ok := unparen(se.X).(*ast.SelectorExpr); ok && usedVar(info, inner) == f {
+									reparented = true
+								}
+							}
+							// cur.F = nil
+							if usedVar(info, se) == f && usedVar(info, se.X) == base {
+								if id, ok := unparen(x.Rhs[0]).(*ast.Ident); ok && id.Name == "nil" {
+									cleared = true
+								}
+							}
+						}
+					}
+				}
 			}
-			r.Check(reparented, rule, key+":reparented", pos, "children in "+f.Name()+" get the new node as parent", "no `…parent = "+nVar.Name()+"` for the nodes moved through "+f.Name()+": backtracking from them climbs to the old node and takes the wrong branch")
+			r.Check(reparented, rule, key+":reparented", pos, "children in "+f.Name()+" get the new node as parent", "no `…parent = "+nVar.Name()+"` for the nodes moved through "+f.Name()+" on every path (unconditionally or under a nil test of that field only): backtracking from them climbs to the old node and takes the wrong branch")
 			r.Check(cleared, rule, key+":cleared", pos, "field "+f.Name()+" is reset on the old node", base.Name()+"."+f.Name()+" is not set to nil after the split: the subtree hangs below both nodes")
 		}
 		return true
